@@ -53,8 +53,12 @@ func ghost_lastline(w *textproto.Writer) string { panic("ghost") }
 //@ ext (*net/textproto.Reader).ReadLine(c *textproto.Reader) (line string, err error)
 
 // ReadDotBytes returns the dot-unstuffed block in a freshly allocated slice.
+func ghost_lastBlock(c *textproto.Reader) []byte { panic("ghost") }
+
 //@ ext (*net/textproto.Reader).ReadDotBytes(c *textproto.Reader) (b []byte, err error)
+//@   modifies ghost_lastBlock(c)
 //@   ensures err == nil && b != nil ==> vcFresh(b)
+//@   attr result-ghost=ghost_lastBlock
 
 //@ ext net/textproto.NewConn(conn io.ReadWriteCloser) (c *textproto.Conn)
 //@   ensures c != nil && vcFresh(c)
